@@ -133,6 +133,14 @@ def mutate(x, how, r, shared_hint=None):
     if how == "add_record":
         r.choice(containers).entity(NSX["newrec"], {NSX["k"]: 1})
         return True
+    if how == "add_record_everywhere":
+        for c in containers:
+            c.entity(NSX["newrec"], {NSX["k"]: 1})
+        return True
+    if how == "add_namespace_everywhere":
+        for c in containers:
+            c.add_namespace(NSX.prefix, NSX.uri)
+        return True
     if how == "add_namespace":
         r.choice(containers).add_namespace(NSX.prefix, NSX.uri)
         return True
@@ -211,7 +219,25 @@ def judge(ctx, idx, case):
                 pairs = [(src, other)]
             elif dname == "add_bundle_doc":
                 flat = pm.ProvDocument(records=src.get_records(), namespaces=list(src.namespaces))
-                other.add_bundle(flat, Namespace("exb", "http://ex.org/bundles/")["added"])
+                flat_before = view(flat)
+                how_id = r.choice(["qn_foreign", "qn_foreign", "str", "taken"])
+                if how_id == "qn_foreign":
+                    bid = Namespace("exb", "http://ex.org/bundles/")["added"]       # a namespace neither document knows
+                elif how_id == "str" and list(other.namespaces):
+                    bid = "%s:added" % r.choice(list(other.namespaces)).prefix          # a string resolved where the bundle will live
+                else:
+                    bid = r.choice(list(other.bundles)).identifier if (how_id == "taken" and list(other.bundles)) else Namespace("exb", "http://ex.org/bundles/")["added"]
+                try:
+                    other.add_bundle(flat, bid)
+                    refused = False
+                except pm.ProvException:
+                    refused = True
+                    ctx.count("derive.add_bundle_doc.refused_but_source_watched")
+                if view(flat) != flat_before:
+                    problems.append({"derive": dname, "problem": "add_bundle(document, id)%s changed the document that was passed in (content, namespaces or printed names)"
+                                     % (" (refused)" if refused else "")})
+                if refused:
+                    continue
                 pairs = [(flat, other), (src, other)]
             elif dname == "unified":
                 u1 = src.unified()
@@ -258,8 +284,11 @@ def judge(ctx, idx, case):
                 ctx.count("alias.shared_containers.%s" % dname)
             for side in ("result", "source"):
                 target, watched = (b, a) if side == "result" else (a, b)
-                for how in r.sample(MUTATORS, 2) + (["add_namespace", "set_default"] if any("NamespaceManager" in s for s in shared) else []) \
-                        + (["add_attribute", "add_value"] if any("record" in s or "value set" in s for s in shared) else []):
+                # the structural walk directs the mutations: a shared container is written through on *every* container of the
+                # mutated side, so that the shared one is certainly among them
+                for how in r.sample(MUTATORS, 2) + (["add_namespace", "set_default", "add_namespace_everywhere"] if any("NamespaceManager" in s for s in shared) else []) \
+                        + (["add_attribute", "add_value"] if any("record" in s or "value set" in s for s in shared) else []) \
+                        + (["add_record_everywhere"] if any("_records" in s or "container object" in s for s in shared) else []):
                     if dname in ("copy", "add_record_same_document", "update_self") and how not in ("add_attribute", "add_value"):
                         continue
                     before = view(watched)
